@@ -69,9 +69,34 @@ def fill(shape, bins, uns, atoms):
     return ("bin", op, l, r)
 
 
+_DOTTED_OPS = {".and.", ".or.", ".not.", ".eqv.", ".neqv.", ".eq.", ".ne.", ".lt.", ".le.", ".gt.", ".ge.", ".myop.", ".inv."}
+
+
+def spread_dotted(text, variant):
+    """Fixed form: blanks are insignificant, so a dotted operator may be written '. and .', '.and .' or '. and.'."""
+    from vf import lexer
+    out = []
+    pos = 0
+    for k, t in lexer.lex_line(text):
+        j = text.index(t, pos)
+        out.append(text[pos:j])
+        pos = j + len(t)
+        if k == "DOT" and t.lower() in _DOTTED_OPS:
+            name = t[1:-1]
+            t = [". %s ." % name, ".%s ." % name, ". %s." % name][variant % 3]
+        out.append(t)
+    out.append(text[pos:])
+    return "".join(out)
+
+
 def make_case(tree, sp, ctx="expr", std="f2003", idx=0):
     m = X.minimal(tree)
     text = X.render(m, sp)
+    if ctx == "fixed":
+        if len(text) > 58 or "!" in text:
+            ctx = "assign"
+        else:
+            text = spread_dotted(text, idx)
     levels = X.op_levels(tree)
     return {"expr": text, "expected": X.fullparen(m), "ctx": ctx, "std": std,
             "meta": {"nops": len(levels), "levels": sorted(set(levels)), "kf04": kf04_shape(m), "kf05": kf05_shape(text)}}
@@ -114,6 +139,8 @@ def exhaustive(tier, flags):
                     tree = fill(shape, iter(bops), iter(uops), atoms)
                     for sp in (" ", ""):
                         yield make_case(tree, sp, "expr", "f2003" if idx % 2 else "f2008", idx)
+                    if n <= 2 and any(o.startswith(".") for o in bops + uops):
+                        yield make_case(tree, " ", "fixed", "f2003", idx)
 
 
 def rand_tree(r, d):
@@ -145,7 +172,7 @@ def avoid_kf04(m):
 def build(rnd, tier, flags):
     r = gen.R(rnd)
     tree = rand_tree(r, r.n(2, 6))
-    ctx = r.pick(["expr", "assign", "if", "arg", "subscript", "expr"])
+    ctx = r.pick(["expr", "assign", "if", "arg", "subscript", "expr", "fixed"])
     root = tree
     while root[0] == "par":
         root = root[1]
@@ -158,9 +185,10 @@ def build(rnd, tier, flags):
     if "no_defined_binop_before_dotted" in flags and kf04_shape(X.minimal(tree)):
         tree = avoid_kf04(X.minimal(tree))
         excl["no_defined_binop_before_dotted"] = 1
-    case = make_case(tree, sp, ctx, std)
+    vidx = r.n(0, 2)
+    case = make_case(tree, sp, ctx, std, vidx)
     if "no_dotted_op_glued_to_signed_exponent" in flags and case["meta"]["kf05"]:
-        case = make_case(tree, " ", ctx, std)
+        case = make_case(tree, " ", ctx, std, vidx)
         excl["no_dotted_op_glued_to_signed_exponent"] = 1
     return case, excl
 
@@ -170,16 +198,17 @@ def build(rnd, tier, flags):
 def node_to_tree(n):
     if isinstance(n, two_utils.BinaryOpBase):
         l, op, r = n.items
-        return ("bin", str(op).lower(), node_to_tree(l), node_to_tree(r))
+        return ("bin", str(op).lower().replace(" ", ""), node_to_tree(l), node_to_tree(r))
     if isinstance(n, two_utils.UnaryOpBase):
         op, r = n.items
-        return ("un", str(op).lower(), node_to_tree(r))
+        return ("un", str(op).lower().replace(" ", ""), node_to_tree(r))
     if isinstance(n, F03.Parenthesis):
         return ("par", node_to_tree(n.items[1]))
     return ("atom", str(n))
 
 
 WRAP = {
+    "fixed": ("      program p\n      res = %s\n      end\n", F03.Assignment_Stmt, lambda n: n.items[2]),
     "assign": ("program p\nres = %s\nend\n", F03.Assignment_Stmt, lambda n: n.items[2]),
     "if": ("program p\nif (%s) res = 1\nend\n", F03.If_Stmt, lambda n: n.items[0]),
     "arg": ("program p\ncall sub(%s, 1)\nend\n", F03.Call_Stmt, lambda n: n.items[1].items[0]),
